@@ -170,6 +170,88 @@ def edge_family(run, quick):
         fam.append((t, op, prog(False), prog(True)))
     return fam
 
+def literal_init_family(run, quick):
+    """source-level pairs: declarations whose initialiser is built from literals only (the three evaluators - type checker
+    big-number folding, HIR constant evaluation, run-time code - all see it), once as `let`, once as `const`, once wrapped in
+    `if true { }`. No oracle: the property only demands that the variants agree (verdict and output)."""
+    r = run.rng
+    def expr(t, depth):
+        lo, hi = core.tmin(t), core.tmax(t)
+        if depth == 0 or r.random() < 0.25:
+            c = r.random()
+            if c < 0.4: v = r.choice([0, 1, 2, 3, 5, 7, 10, 100])
+            elif c < 0.8: v = r.choice([hi, hi - 1, hi // 2, hi // 2 + 1, hi // 3 * 2, lo, lo + 1] if core.signed(t) else [hi, hi - 1, hi // 2, hi // 2 + 1, hi // 3 * 2])
+            else: v = r.randint(lo, hi)
+            v = max(lo, min(hi, v))
+            return ("(%d)" % v if v < 0 else str(v)), v, v
+        op = r.choice(["+", "-", "*", "+", "-", "/", "%"])
+        (sa, xa, wa), (sb, xb, wb) = expr(t, depth - 1), expr(t, depth - 1)
+        if op in "/%" and (xb == 0 or wb == 0 or (xb == -1) or (wb == -1)):
+            sb, xb, wb = "3", 3, 3
+        if op == "+": x, w = xa + xb, wa + wb
+        elif op == "-": x, w = xa - xb, wa - wb
+        elif op == "*": x, w = xa * xb, wa * wb
+        elif op == "/":
+            x = abs(xa) // abs(xb) * (1 if (xa >= 0) == (xb >= 0) else -1)
+            w = abs(wa) // abs(wb) * (1 if (wa >= 0) == (wb >= 0) else -1)
+        else:
+            x = xa - xb * (abs(xa) // abs(xb) * (1 if (xa >= 0) == (xb >= 0) else -1))
+            w = wa - wb * (abs(wa) // abs(wb) * (1 if (wa >= 0) == (wb >= 0) else -1))
+        return "(%s %s %s)" % (sa, op, sb), x, core.wrap(t, w)
+    fam = []
+    nprog = 8 if quick else 80
+    for k in range(nprog):
+        decls = []
+        stats = {"fits": 0, "overflowing-intermediate": 0, "final-does-not-fit": 0}
+        for j in range(14):
+            t = r.choice(core.ITYS)
+            if r.random() < 0.4:
+                # intermediate beyond the declared range, brought back by a non-ring operation: exact folding and run-time
+                # evaluation at the declared width give different values here, so every evaluator must make the same choice
+                hi = core.tmax(t)
+                a, b = r.randint(hi // 2 + 1, hi), r.randint(hi // 2 + 1, hi)
+                d = r.choice([2, 3, 5, 7])
+                op1, op2 = r.choice(["+", "*"]) if hi > 200 else "+", r.choice(["/", "%"])
+                if op1 == "*": b = r.choice([2, 3])
+                s = "((%d %s %d) %s %d)" % (a, op1, b, op2, d)
+                xi = a + b if op1 == "+" else a * b
+                wi = core.wrap(t, xi)
+                tq = lambda n, m: abs(n) // abs(m) * (1 if (n >= 0) == (m >= 0) else -1)
+                x = tq(xi, d) if op2 == "/" else xi - d * tq(xi, d)
+                w = tq(wi, d) if op2 == "/" else wi - d * tq(wi, d)
+            else:
+              for _ in range(20):
+                s, x, w = expr(t, r.randint(1, 3))
+                if s.startswith("(") and " " in s: break
+            fits = core.tmin(t) <= x <= core.tmax(t)
+            if not fits and not (k % 4 == 3 and stats["final-does-not-fit"] == 0):
+                # three programs in four are acceptable (every exact value fits its declared type; intermediates are free to
+                # overflow); the fourth carries exactly one initialiser that does not fit
+                continue
+            stats["fits" if fits else "final-does-not-fit"] += 1
+            if fits and x != w: stats["overflowing-intermediate"] += 1
+            decls.append((j, t, s))
+        for kw in ("f64",):
+            # decimal-exact operands with short results (a folded value with a long expansion is rejected: F-FLOAT-FOLD-DIGITS)
+            a, b = r.choice(["1.5", "2.25", "1000000.5", "7.0"]), r.choice(["0.000000000001", "0.125", "0.25", "3.5"])
+            decls.append((90, "f64", "(%s %s %s)" % (a, r.choice("+-*"), b)))
+        def render(kw, wrap):
+            body = []
+            for j, t, s in decls:
+                body.append("    %s w%d: %s = %s;" % (kw, j, t, s))
+            pr = ["    io::Println(%s);" % ", ".join("w%d" % j for j, _, _ in decls[i:i + 4]) for i in range(0, len(decls), 4)]
+            if wrap:
+                pr = ["    if true {"] + ["    " + l for l in pr] + ["    }"]
+            return 'import "std/io";\n\nfn main() {\n' + "\n".join(body + pr) + "\n}\n"
+        fam.append((render("let", False), render("const", False), "let-const-literal-init", stats))
+        fam.append((render("let", False), render("let", True), "if-true-literal-init", stats))
+    return fam
+
+def run_sources(srcs, work, prefix):
+    def one(i):
+        return common.compile_and_run(srcs[i], work, "%s%d" % (prefix, i))
+    return common.pmap(one, range(len(srcs)), workers=6)
+
 def main(run):
     work = Work()
     quick = run.tier == "quick"
@@ -225,6 +307,39 @@ def main(run):
             rep.update(original_out=a.get("out"), rewritten_out=b.get("out"), original_rc=a.get("rc"), rewritten_rc=b.get("rc"),
                        reference=c01.model_output("c09_replay", variants[i]))
             run.violation(key, "output changes under rewrite %s" % kind, rep)
+    # open known findings with a replayable pair: still failing -> KNOWN-FINDING (key match); no longer failing -> note
+    for k in run.known:
+        rp = k.get("replay") or {}
+        if k.get("status") == "open" and "original" in rp and "rewritten" in rp:
+            a = common.compile_and_run(rp["original"], work, "known_a_" + k["id"].replace("-", "_"))
+            b = common.compile_and_run(rp["rewritten"], work, "known_b_" + k["id"].replace("-", "_"))
+            run.case(rp["rewritten"], True)
+            if bool(a.get("accepted")) != bool(b.get("accepted")) or (a.get("accepted") and a.get("out") != b.get("out")):
+                run.violation(k["key"], k["what"], {"original": rp["original"], "rewritten": rp["rewritten"],
+                                                    "original_accepted": a.get("accepted"), "rewritten_accepted": b.get("accepted")})
+            else:
+                print("NOTE: known finding %s no longer reproduces (move it to fixed)" % k["id"])
+    # literal-only initialisers: let vs const vs if-true (source-level family, no reference)
+    lfam = literal_init_family(run, quick)
+    lres_a = run_sources([f[0] for f in lfam], work, "la")
+    lres_b = run_sources([f[1] for f in lfam], work, "lb")
+    for (sa, sb, kind, stats), a, b in zip(lfam, lres_a, lres_b):
+        run.case(sb, True)
+        run.count("kind:" + kind)
+        if kind.startswith("let-const"):
+            for k, v in stats.items(): run.count("literal-init:" + k, v)
+        key = "lit:%s:%s" % (kind, hashlib.sha256((sa + sb).encode()).hexdigest()[:12])
+        rep = {"rewrite": kind, "original": sa, "rewritten": sb}
+        acc_a, acc_b = bool(a.get("accepted")), bool(b.get("accepted"))
+        if acc_a != acc_b:
+            rep.update(original_diag=(a.get("cout") or "")[-800:], rewritten_diag=(b.get("cout") or "")[-800:])
+            run.violation(key, "verdict changes under rewrite %s (original %s, rewritten %s)" %
+                          (kind, "accepted" if acc_a else "rejected", "accepted" if acc_b else "rejected"), rep)
+        elif acc_a and (a.get("rc"), a.get("out")) != (b.get("rc"), b.get("out")):
+            rep.update(original_out=a.get("out"), rewritten_out=b.get("out"))
+            run.violation(key, "output changes under rewrite %s" % kind, rep)
+        elif not acc_a:
+            run.count("literal-init:both-rejected")
     run.extra["reference_diffs(reported by C01)"] = sum(1 for i, v in bad.items() if v == "diff")
     run.rule = ("accepted FerretCore programs x 4 rewrite kinds, one random applicable site each; distinct = distinct rewritten source; "
                 "every rewritten program is also run through the reference interpreter")
